@@ -94,14 +94,15 @@ impl Scenario for C11 {
       &["executor, timer, clock (sim)"],
     )
   }
-  fn generate(&self, rng: &mut Rng, _tier: Tier) -> Value {
+  fn generate(&self, rng: &mut Rng, tier: Tier) -> Value {
     let kind = if rng.chance(2, 3) { Kind::Share } else { Kind::Publish };
     let src = match rng.below(5) {
       0 => Src::ColdSync(rng.below(3)),
       1 => Src::Interval(*rng.pick(&[1, 3])),
       _ => Src::Hot,
     };
-    let len = rng.range(3, 12);
+    let deep = deepen(rng, tier);
+    let len = rng.range(3, 12 * deep);
     let mut acts = Vec::new();
     let mut live = 0usize;
     let mut ever = 0usize;
@@ -327,6 +328,34 @@ impl Scenario for C11 {
         }
       }
     }
+    // bounded liveness the other way round: while the connection stands (publish:
+    // connected; share: a subscriber present and nobody has ever emptied it) a
+    // periodic source keeps being driven, so a subscriber present for three
+    // periods of prompt execution receives something
+    let mut liveness_probed = 0u64;
+    if violation.is_none() && period_ns > 0 && terminal.is_none() && rejoined == 0 && last_left_at.is_none() {
+      let standing = match case.kind {
+        Kind::Publish => connected_at.is_some(),
+        Kind::Share => subs.iter().any(|s| s.handle.is_some()),
+      };
+      if standing {
+        let log = ProbeLog::new(false);
+        let h = subscribe_fn(Probe(log.clone()));
+        for _ in 0..3 {
+          w.advance_by(period_ns);
+          w.run_ready_fifo(200);
+        }
+        liveness_probed = 1;
+        if log.events().is_empty() {
+          violation = Some(Violation {
+            rule: "c11.connected-source-not-driven".into(),
+            site: format!("{} src=interval", site),
+            detail: format!("`{}`: the connection stands, yet a subscriber present for three further periods (executor run as timers fell due) received nothing", trace.trim()),
+          });
+        }
+        h.unsub();
+      }
+    }
     let mut h = hash_str(&trace);
     for s in &subs {
       h = hash_mix(h, hash_str(&fmt_trace(&s.log.events())));
@@ -352,7 +381,7 @@ impl Scenario for C11 {
       sim_ns: sim,
       steps: case.acts.len() as u64,
       faults: vec![("emit_after_last_leave", emits_after_leave), ("subscribe_again_after_everybody_left", rejoined), ("last_subscriber_left_with_live_source", last_left_at.is_some() as u64)],
-      reach: vec![("last_share_subscriber_left_with_source_live", (last_left_at.is_some() && terminal.is_none()) as u64)],
+      reach: vec![("last_share_subscriber_left_with_source_live", (last_left_at.is_some() && terminal.is_none()) as u64), ("standing_connection_probed_for_liveness", liveness_probed)],
       resolved: None,
       sample,
     })
